@@ -3,13 +3,14 @@ CONSTANTS
   CertKeys = {"k1","k2","k3"}
   EncKeys = {"e1","e2"}
   Nonces = {"n1"}
-  Tokens = {"t1"}
+  Tokens = {}
   AppStates = {"s1"}
   NodeIds = {"N1"}
-  Enabled = {"Authorize","Remove","Nid","Prev","Rotate","Strip","Token"}
-  MaxGen = 4
+  Enabled = {"Authorize","Remove","Nid","Prev","Rotate","Strip"}
+  MaxGen = 2
   CfgSW = FALSE
   CfgNidl = TRUE
   CfgSO = FALSE
+  CfgRmErr = FALSE
 INVARIANTS InvC10
 CHECK_DEADLOCK FALSE
